@@ -208,7 +208,11 @@ func Product[C any, E any](r *Report, name string, opt PartOpt, gen func(yield f
 			}
 		}
 		if stable {
-			r.addViolation(name, fc.f, fc.c)
+			var art any = fc.c
+			if fc.f.Case != nil {
+				art = fc.f.Case
+			}
+			r.addViolation(name, fc.f, art)
 			r.mu.Lock()
 			r.viol[s].Count += failCount[s] - 1
 			r.mu.Unlock()
